@@ -11,12 +11,14 @@ package main
 
 import (
 	"encoding/json"
+	"errors"
 	"flag"
 	"fmt"
 	"math/rand"
 	"os"
 	"path/filepath"
 	"sort"
+	"strconv"
 	"strings"
 	"sync"
 	"syscall"
@@ -367,6 +369,11 @@ func render(sc Script, prog string) string {
 			sb.WriteString("defer\n")
 		case "deferfail":
 			sb.WriteString("deferfail\n")
+		case "setupfail":
+			sb.WriteString("# Setup fails for this script\n")
+		case "bgdup":
+			// a background name that is already in use: the line fails, and nothing it started may stay behind
+			sb.WriteString("exec sleep 1000 &dup&\npids\nexec sleep 1000 &dup&\n")
 		case "nopath":
 			sb.WriteString("env PATH=/nonexistent\n")
 		case "condexec":
@@ -459,7 +466,31 @@ func runBatch(mode string, cfg Config, strat vsched.Strategy) *RunRec {
 	env0 := strings.Join(os.Environ(), "\n")
 	// a deadline far in the future: RunT then runs its scripts under a shared context with a timeout
 	p := testscript.Params{Dir: sdir, Cmds: b.cmds(), Deadline: time.Now().Add(2 * time.Hour),
-		Setup: func(e *testscript.Env) error { e.Setenv("SETUP_ADDED", "yes"); return nil }}
+		Setup: func(e *testscript.Env) error {
+			e.Setenv("SETUP_ADDED", "yes")
+			// Setup registers a clean-up of its own (the first deferred function of every script) ...
+			t, _ := e.T().(*recT)
+			if t == nil {
+				return nil
+			}
+			s := t.name
+			b.mu.Lock()
+			b.nextK[s]++
+			k := b.nextK[s]
+			b.mu.Unlock()
+			b.event(Event{Ev: "defer", S: s, K: k})
+			e.Defer(func() {
+				vsched.Yield("deferred")
+				b.event(Event{Ev: "ran", S: s, K: k})
+			})
+			// ... and, for the scripts that say so, fails after that: the clean-up still has to run
+			for _, sc := range cfg.Scripts {
+				if sc.Name == s && len(sc.Lines) > 0 && sc.Lines[0] == "setupfail" {
+					return errors.New("setup fails as the script asks")
+				}
+			}
+			return nil
+		}}
 	if files != nil {
 		p.Dir, p.Files = "", files
 	}
@@ -551,6 +582,38 @@ func runBatch(mode string, cfg Config, strat vsched.Strategy) *RunRec {
 					rec.Live = append(rec.Live, pid)
 					syscall.Kill(pid, syscall.SIGKILL)
 				}
+			}
+		}
+	}
+	// ... and processes the run started without ever recording them: any `sleep 1000` that is still a running child of this process
+	if ents, err := os.ReadDir("/proc"); err == nil {
+		for _, e := range ents {
+			pid, err := strconv.Atoi(e.Name())
+			if err != nil {
+				continue
+			}
+			st, err := os.ReadFile(fmt.Sprintf("/proc/%d/stat", pid))
+			if err != nil {
+				continue
+			}
+			i := strings.LastIndex(string(st), ")")
+			if i < 0 {
+				continue
+			}
+			f := strings.Fields(string(st)[i+1:])
+			if len(f) < 2 || f[1] != fmt.Sprint(os.Getpid()) || f[0] == "Z" {
+				continue
+			}
+			cl, _ := os.ReadFile(fmt.Sprintf("/proc/%d/cmdline", pid))
+			if strings.HasSuffix(strings.TrimRight(string(cl), "\x00"), "sleep\x001000") {
+				known := false
+				for _, p := range rec.Live {
+					known = known || p == pid
+				}
+				if !known {
+					rec.Live = append(rec.Live, pid)
+				}
+				syscall.Kill(pid, syscall.SIGKILL)
 			}
 		}
 	}
